@@ -20,6 +20,7 @@ def run_check(ctx):
         a, b = gen.rand_field(rng, Q), gen.rand_field(rng, Q); pairs += [(a, b), (a * b % Q, 1), (1, a * b % Q)]
     for a, b in pairs: lines.append('bls.pair %x %x' % (a, b))
     for a, b in pairs[:2] + pairs[-1:]: lines.append('bls.pair.raw %x %x' % (a, b))
+    for a in sc[:8]: lines += ['bls.g1.cofactor %x' % a, 'bls.g2.cofactor %x' % a]
     # the target field as a field: every Frobenius power 0..=12 and the tower arithmetic, on pairing outputs and on sums of them
     for k in range(13): lines.append('bls.gt.frobenius %x %x %x' % (k, pairs[k % len(pairs)][0] or 2, pairs[k % len(pairs)][1] or 3))
     for a, b in pairs[:3]: lines.append('bls.gt.field_ops %x %x %x' % (a or 2, b or 3, 5))
